@@ -623,3 +623,102 @@ def coq_crosscheck(cases, tag):
         except OSError:
             pass
     return rc == 0, out[-800:]
+
+
+# --------------------------------------------------------------------------- bridge to the indexer model of group scope
+KIND_CODES = ["record", "template_arg", "record_field", "variable", "defset", "multiclass", "defm"]
+
+
+def bridge_states(bindir, ix_exe, wss):
+    """runs harness `coreast` (real parse trees -> typed Core AST) and the extracted bridge unit (indexer MODEL of group
+    scope followed by IndexerOps.abs) on the workspaces; returns per workspace None (not in the Core fragment / panic)
+    or the abstraction's state dump with file numbers replaced by paths"""
+    inp = json.dumps([{"files": w["files"], "root": w["root"]} for w in wss])
+    p = subprocess.run([os.path.join(bindir, "coreast")], input=inp, capture_output=True, text=True, timeout=600)
+    if p.returncode != 0:
+        raise RuntimeError("coreast failed: " + p.stderr[-500:])
+    cores = json.loads(p.stdout)
+    lines, idx = [], []
+    for k, (c, w) in enumerate(zip(cores, wss)):
+        if c.get("panic") or c.get("ast") is None:
+            continue
+        texts = dict((pp, t) for pp, t in w["files"])
+        lens = [len(texts.get(pp, "").encode("utf-8")) for pp in c["files"]]
+        lines.append("%s ; ; %s" % (" ".join(map(str, lens)), c["ast"]))
+        idx.append(k)
+    out = [None] * len(wss)
+    if not lines:
+        return out
+    q = subprocess.run(["bash", "-c", "ulimit -s unlimited 2>/dev/null || ulimit -s 1000000; exec '%s'" % ix_exe],
+                       input="\n".join(lines) + "\n", capture_output=True, text=True, timeout=900)
+    res = q.stdout.split("\n")
+    for k, line in zip(idx, res):
+        try:
+            o = json.loads(line)
+        except ValueError:
+            o = {"error": "unparsable: " + line[:200]}
+        o["files"] = cores[k]["files"]
+        out[k] = o
+    return out
+
+
+def bridge_compare(real, model, br):
+    """the symbol-map state the indexer MODEL stands for (br) against the symbol-map model state obtained by replaying
+    the REAL op log (model); names of anonymous defs/defms, is_global, defset members, defm parents, field parents and
+    the name maps are not represented in the indexer model and not compared"""
+    if br is None:
+        return None
+    if br.get("error"):
+        return ["bridge driver error: " + br["error"]]
+    if br["bad"]:
+        return ["indexer model ran out of fuel or hit a modelled panic"]
+    if "model_crash" in model or model.get("run") != "ok":
+        return None
+    diffs = []
+    bfiles = br["files"]
+    fids = real["fids"]
+    path_of = dict((v, k) for k, v in fids.items())
+
+    def bfr(r):
+        return [bfiles[r[0]] if r[0] < len(bfiles) else "#%d" % r[0], r[1], r[2]]
+
+    def mfr(r):
+        return [path_of.get(r[0], "#%d" % r[0]), r[1], r[2]]
+    # arenas
+    for code, kname in enumerate(KIND_CODES):
+        barena = br["arenas"][str(code)]
+        marena = []
+        i = 0
+        while "%s:%d" % (kname, i) in model["syms"]:
+            marena.append(model["syms"]["%s:%d" % (kname, i)])
+            i += 1
+        if len(barena) != len(marena):
+            diffs.append("%s arena: indexer model has %d entries, replay of the real log %d" % (kname, len(barena), len(marena)))
+            continue
+        for i, (be, me) in enumerate(zip(barena, marena)):
+            anon = be["name"] == "" and me["name"].startswith("anonymous_")
+            if (not anon and be["name"] != me["name"]) or bfr(be["def"]) != mfr(me["def"]) or [bfr(r) for r in be["refs"]] != [mfr(r) for r in me["refs"]]:
+                diffs.append("%s:%d differs: indexer model %s, real log %s" % (
+                    kname, i, json.dumps([be["name"], bfr(be["def"]), [bfr(r) for r in be["refs"]]])[:200],
+                    json.dumps([me["name"], mfr(me["def"]), [mfr(r) for r in me["refs"]]])[:200]))
+                break
+            if kname == "record":
+                mr = model["records"][i]
+                if [be["class"], be["targs"], be["fields"], be["parents"]] != [mr["kind"] == "Class", mr["targs"], mr["fields"], mr["parents"]]:
+                    diffs.append("record:%d structure differs: indexer model %s, real log %s" % (
+                        i, json.dumps([be["class"], be["targs"], be["fields"], be["parents"]])[:200], json.dumps(mr)[:200]))
+                    break
+            if kname == "multiclass" and be["targs"] != model["multiclasses"][i]:
+                diffs.append("multiclass:%d template arguments differ" % i)
+                break
+    # interval maps
+    bpos = dict((bfiles[int(f)], [[lo, hi, KIND_CODES[c], i] for lo, hi, c, i in m]) for f, m in br["pos"].items())
+    mpos = dict((path_of.get(int(f), "#" + f), m) for f, m in model["pos"].items())
+    for pth in set(bpos) | set(mpos):
+        if bpos.get(pth, []) != mpos.get(pth, []):
+            diffs.append("interval map of %s differs: indexer model %s, real log %s" % (
+                pth, json.dumps(bpos.get(pth))[:200], json.dumps(mpos.get(pth))[:200]))
+    if [bfr(d) for d in br["diags"]] != [mfr(d) for d in model["diags"]]:
+        diffs.append("index diagnostics differ: indexer model %s, real log %s" % (
+            json.dumps([bfr(d) for d in br["diags"]])[:200], json.dumps([mfr(d) for d in model["diags"]])[:200]))
+    return diffs
